@@ -245,3 +245,43 @@ pub proof fn lemma_wnd_only_window<T>(x: Seq<T>, y: Seq<T>, window: usize, i: in
     ensures wnd(x, window, i) =~= wnd(y, window, i),
 {
 }
+
+// ---- generic value view: any per-element feature g (used for pairwise-complete two-series windows)
+pub open spec fn mvals<E>(s: Seq<E>, g: spec_fn(E) -> Option<real>) -> Seq<Option<real>> { Seq::new(s.len(), |i: int| g(s[i])) }
+
+pub proof fn lemma_step_map<E, OT>(h0: Seq<Call<E, OT>>, rm: Option<E>, v: E, g: spec_fn(E) -> Option<real>)
+    requires hist_wf(h0), fifo_ok(h0, rm, v),
+    ensures
+        ({
+            let w0 = mvals(win(h0), g);
+            let wp = w0.push(g(v));
+            let w1 = mvals(win_after(h0, rm, v), g);
+            &&& mvals(win(h0).push(v), g) =~= wp
+            &&& cnt(wp) == cnt(w0) + cv(g(v))
+            &&& (forall|k: int| #![trigger ps(wp, k)] ps(wp, k) == ps(w0, k) + pw(g(v), k))
+            &&& 0 <= cnt(w0) <= h0.len()
+            &&& rm.is_some() ==> {
+                &&& wp.len() > 0 && wp[0] == g(rm.unwrap()) && w1 =~= wp.subrange(1, wp.len() as int)
+                &&& cnt(w1) == cnt(wp) - cv(g(rm.unwrap()))
+                &&& cnt(wp) >= cv(g(rm.unwrap()))
+                &&& (forall|k: int| #![trigger ps(w1, k)] ps(w1, k) == ps(wp, k) - pw(g(rm.unwrap()), k))
+            }
+            &&& rm.is_none() ==> w1 =~= wp
+        }),
+{
+    let c = Call { rm, v, out: arbitrary::<OT>() };
+    lemma_fifo_step(h0, c);
+    let w0 = mvals(win(h0), g);
+    let wp = w0.push(g(v));
+    assert(mvals(win(h0).push(v), g) =~= wp);
+    lemma_push(w0, g(v));
+    lemma_cnt_le_len(w0);
+    if rm.is_some() {
+        let wpt = win(h0).push(v);
+        assert(mvals(wpt.subrange(1, wpt.len() as int), g) =~= mvals(wpt, g).subrange(1, wpt.len() as int));
+        lemma_drop_first(wp);
+        assert(mvals(wpt, g) =~= wp);
+        assert(wp[0] == g(rm.unwrap()));
+        assert(mvals(win_after(h0, rm, v), g) =~= wp.subrange(1, wp.len() as int));
+    }
+}
